@@ -238,6 +238,11 @@ def run_harness(subcmd, jobs, extra_args=(), shards=None, results_per_job=None, 
                     crashes.append((culprit["id"], s2, (e2 or "")[-500:]))
                 inconc.append((culprit["id"], "qvh died with status %r: %s" % (s2, (e2 or "")[-500:])))
             pos += done + 1
+            if len(cpu_viol) >= 2 and pos < len(chunk):
+                # two witnesses per shard settle the verdict; a change that makes MANY jobs run away would otherwise cost one shard
+                # budget per job (a check must end in minutes even then): the rest of the shard has no verdict
+                inconc.extend((j["id"], "skipped: two jobs of this shard had already exceeded the CPU budget") for j in chunk[pos:])
+                break
         return res_by_id, cpu_viol, inconc, in_parser, crashes
 
     with ThreadPoolExecutor(max_workers=shards) as ex:
